@@ -418,10 +418,28 @@ def check(prop: str, tier: str) -> Report:
             for t, pred in ((ta, a["h"]), (tb, b2["h"])):
                 ov.append({"cfg": full_cfg(configs[c - 1]), "ev": t, "predicted": pred,
                            "variant": {"overlap": True, "switch_at": k}})
+        # ... and re-entrancy on one sync policy object: the operation of run A makes a whole run B
+        # through the same object before it produces its own outcome
+        n_nested = 0
+        for _ in range(300 if tier == "quick" else 6000):
+            c, bs = pool[rngo.randrange(len(pool))]
+            a, b2 = rngo.sample(bs, 2)
+            if len(split_runs_n(a["h"])) != 1 or len(split_runs_n(b2["h"])) != 1:
+                continue
+            k = rngo.choice([1, 2, 3])
+            ent = rngo.choice(["Retry", "Policy", "RetryPolicy", "Retry.from_config"])
+            ta, tb = retryenv.run_nested(configs[c - 1], a["h"], b2["h"], nest_at=k, entry=ent,
+                                         place=rngo.choice(["ctor", "call"]))
+            for t, pred in ((ta, a["h"]), (tb, b2["h"])):
+                if t is not None:
+                    n_nested += 1
+                    ov.append({"cfg": full_cfg(configs[c - 1]), "ev": t, "predicted": pred,
+                               "variant": {"nested": True, "nest_at": k, "entry": ent}})
         ovm = [t for t in ov if drop_bclassify(t["ev"]) != t["predicted"]]
         v4 = tlc_validate("RetryTrace", ovm, f"{prop}-overlap") if ovm else []
         judge(rep, prop, ovm, v4, "two overlapping runs on one async policy object")
-        extra_cov = {"overlapping_run_pairs": len(ov) // 2, "overlap_mismatches": len(ovm)}
+        extra_cov = {"overlapping_run_pairs": (len(ov) - n_nested) // 2, "nested_run_traces": n_nested,
+                     "overlap_mismatches": len(ovm)}
         n_replayed += len(ov)
     if prop == "C14":
         # the captured timeline must be the metric/log stream: run the execute-style behaviours
